@@ -32,7 +32,7 @@ IntAlphabet ==
   \cup UNION {{BSub(P(k), One), P(k)} : k \in {8, 16, 32, 64, 128}} \cup {BNeg(P(64)), BNeg(P(128))}
   \cup (IF Thorough THEN UNION {Edges(k) : k \in {8, 16, 24, 32, 40, 48, 56, 64, 72, 79, 87, 95, 103, 111, 119, 128}} \cup
                          {BAdd(P(k), One) : k \in {7, 15, 31, 63}} \cup {B(2), B(-2), B(100), B(-100), B(1000000007), FromDec(FALSE, <<1>> \o Zeros(30)), FromDec(TRUE, <<9, 9, 9, 9, 9, 9, 9, 9, 9, 9, 9, 9, 9, 9, 9, 9, 9, 9, 9, 9, 9, 9>>)} ELSE {})
-NamedUsed == IF Thorough THEN NamedIntKinds ELSE {"nint64", "nint16", "nuint8", "nuint32", "nuint64", "nint"}
+NamedUsed == IF Thorough THEN NamedIntKinds ELSE {"nint64", "nuint8", "nuint32"}
 IntSrcKinds == IntKinds \cup NamedUsed \cup {"bigint", "string"}
 IntColTypes == {"tinyint", "smallint", "int", "bigint", "counter", "varint"}
 
@@ -65,7 +65,10 @@ IPs == {<<0, 0, 0, 0>>, <<127, 0, 0, 1>>, <<255, 255, 255, 255>>, <<10, 1, 2, 3>
 
 \* ------------------------------------------------------------ scalar families
 ScalarP == 4
-IntCases == {Case("int", NT(t), ScalarP, KK(g), VInt(x)) : <<t, g, x>> \in {y \in IntColTypes \X IntSrcKinds \X IntAlphabet : Supported(y[1], y[2]) /\ FitsKind(y[2], y[3])}}
+\* quick tier: counter (the same column encoding as bigint) only from the 64-bit and arbitrary-size kinds
+IntCases == {Case("int", NT(t), ScalarP, KK(g), VInt(x)) : <<t, g, x>> \in {y \in IntColTypes \X IntSrcKinds \X IntAlphabet :
+               /\ Supported(y[1], y[2]) /\ FitsKind(y[2], y[3])
+               /\ (Thorough \/ y[1] # "counter" \/ y[2] \in {"int64", "uint64", "bigint", "string", "nint64"})}}
 TextCases == {Case("text", NT(t), ScalarP, KK(g), Txt(b)) : <<t, g, b>> \in {y \in TextTypes \X {"string", "bytes"} \X BlobAlphabet : y[1] = "blob" \/ y[3] \in TextAlphabet}}
 BoolCases == {Case("bool", NT("boolean"), ScalarP, KK("bool"), VBool(b)) : b \in BOOLEAN}
 FloatCases == {Case("float", NT("float"), ScalarP, KK("float32"), VBytes(b)) : b \in F32} \cup {Case("float", NT("double"), ScalarP, KK("float64"), VBytes(b)) : b \in F64}
@@ -98,11 +101,11 @@ NatKind(t) == CASE t = "tinyint" -> "int8" [] t = "smallint" -> "int16" [] t = "
 ScalarTypes == IntColTypes \cup TextTypes \cup UuidTypes \cup {"boolean", "float", "double", "decimal", "time", "timestamp", "inet", "date", "duration"}
 \* null / nil pointers / pointer chains at top level
 NullCases ==
-  {Case("null", TInt, ScalarP, KPtr(KK(g)), VNull) : g \in UserKinds}           \* nil pointer to a user Marshaler type: null
-  \cup {Case("null", TInt, ScalarP, KPtr(KPtr(KK(g))), VNull) : g \in UserKinds}
-  \cup {Case("ptr", TInt, ScalarP, KPtr(KK(g)), VI(x)) : g \in UserKinds, x \in {0, -7, 2147483647}}
-  \cup {Case("ptr", TInt, ScalarP, KPtr(KPtr(KK(g))), VI(5)) : g \in UserKinds}
-  \cup {Case("int", TInt, ScalarP, KK("um_v"), VInt(x)) : x \in {z \in IntAlphabet : FitsS(z, 32)}}
+  {Case("null", NT("int"), ScalarP, KPtr(KK(g)), VNull) : g \in UserKinds}           \* nil pointer to a user Marshaler type: null
+  \cup {Case("null", NT("int"), ScalarP, KPtr(KPtr(KK(g))), VNull) : g \in UserKinds}
+  \cup {Case("ptr", NT("int"), ScalarP, KPtr(KK(g)), VI(x)) : g \in UserKinds, x \in {0, -7, 2147483647}}
+  \cup {Case("ptr", NT("int"), ScalarP, KPtr(KPtr(KK(g))), VI(5)) : g \in UserKinds}
+  \cup {Case("int", NT("int"), ScalarP, KK("um_v"), VInt(x)) : x \in {z \in IntAlphabet : FitsS(z, 32)}}
   \cup {Case("null", NT(t), ScalarP, KK("nil"), VNull) : t \in ScalarTypes}
   \cup {Case("null", NT(t), ScalarP, KPtr(KK(NatKind(t))), VNull) : t \in ScalarTypes}
   \cup {Case("null", NT(t), ScalarP, KPtr(KPtr(KK(NatKind(t)))), VNull) : t \in {"int", "text", "varint"}}
